@@ -729,6 +729,30 @@ def exhaust_named(sx, k):
     return out
 
 
+def raw_in_named_range(sx, k):
+    """raw access points bound BY NUMBER to addresses of the named range
+    16..31 (and to a well-known address), then named binds: a named service
+    never gets an address that is in use, whoever uses it; datagrams for the
+    raw access point's address still reach it"""
+    n = Net(sx)
+    a1 = sx.int("raw.addr1", 16, 19)
+    a2 = sx.int("raw.addr2", 16, 19)
+    n.bind_addr(n.socket("RAW"), a1, "raw-in-named-range")
+    n.bind_addr(n.socket("RAW"), a2, "raw-in-named-range")
+    if sx.pick("wks", [0, 1]):
+        n.bind_addr(n.socket("RAW"), 4, "raw-in-named-range")       # address of 'snep'
+    n.invariants(0)
+    out = []
+    for j in range(k):
+        key = sx.pick("name%d" % j, ["a", "b", "snep", filler(40 + j)])
+        out.append(n.bind_name(n.socket("DLC" if j % 2 else "LDL"), key))
+        n.invariants(j + 1)
+    out.append(n.datagram(sx.int("dsap", 16, 19), [2], "d"))
+    n.invariants(k + 1)
+    sx.reach("raw-in-named-range-end")
+    return out
+
+
 def delivery(sx, scenario):
     """datagrams with symbolic DSAP, SSAP and payload against a populated
     table"""
@@ -1227,6 +1251,8 @@ def partitions(tier):
                                       ops="quick")))
     parts.append(dict(name="exhaust-named", fn="exhaust_named",
                       params=dict(k=2 if tier == "quick" else 4)))
+    parts.append(dict(name="raw-in-named-range", fn="raw_in_named_range",
+                      params=dict(k=2 if tier == "quick" else 3)))
     for sc in ("via-B", "raw"):
         parts.append(dict(name="delivery:" + sc, fn="delivery",
                           params=dict(scenario=sc)))
@@ -1256,7 +1282,7 @@ def partitions(tier):
     return parts
 
 
-MUST_REACH = ["send-side:connected", "send-side:refused", "send-side:delivered", "history-end", "EAGAIN", "bind-addr-ok", "bind-addr:EFAULT",
+MUST_REACH = ["raw-in-named-range-end", "send-side:connected", "send-side:refused", "send-side:delivered", "history-end", "EAGAIN", "bind-addr-ok", "bind-addr:EFAULT",
               "bind-addr:EACCES", "bind-addr:EADDRINUSE", "bind-name:EFAULT",
               "bind-name:EADDRINUSE", "bind-name:well-known", "bind-name:ok",
               "bind-name:exhausted", "close:last-socket", "close:not-last-socket",
